@@ -15,6 +15,7 @@ mod flush;
 mod executor;
 mod ttl_ops;
 mod conn;
+mod shard_actor;
 use std::panic;
 
 pub struct Found {
@@ -66,6 +67,7 @@ fn main() {
         "ttl_ops" => ttl_ops::search(&pid, &oid, seed),
         "err_frame" => executor::search_err(&pid, &oid, seed),
         "conn" | "batch_collect" => conn::search(&pid, &oid, seed),
+        "shard_actor" => shard_actor::search(&pid, &oid, seed),
         _ => None,
     };
     match res {
